@@ -34,31 +34,28 @@ Proof.
 Qed.
 
 Lemma remove_encryption_protect se iv sch kid ps_ok se' t :
-  no_sinf (se_children se) = true ->
   protect_entry se iv sch kid ps_ok = Ok (se', t) ->
   remove_encryption se' = Ok (se, mkSinf (se_type se) (Some sch) (Some t)).
 Proof.
-  intros Hn H. destruct (protect_entry_shape _ _ _ _ _ _ _ H) as [_ [-> _]].
-  unfold remove_encryption. cbn [se_children se_kind]. rewrite last_sinf_app, remove_first_sinf_app by exact Hn.
+  intros H. destruct (protect_entry_shape _ _ _ _ _ _ _ H) as [_ [-> _]].
+  unfold remove_encryption. cbn [se_children se_kind]. rewrite last_sinf_app, remove_last_sinf_app.
   cbn [si_frma]. destruct se; reflexivity.
 Qed.
 
 (* one stsd: every entry restored, one track info per entry, scheme = sch *)
 Lemma decrypt_entries_protect iv sch kid ps_ok : forall l l' ts,
-  forallb (fun se => no_sinf (se_children se)) l = true ->
   protect_entries l iv sch kid ps_ok = Ok (l', ts) ->
   decrypt_entries l' = Ok (l, map (fun t => Some (sch, Some t)) ts, match l with [] => 0 | _ => sch end).
 Proof.
-  induction l as [|se t IH]; intros l' ts Hn H.
+  induction l as [|se t IH]; intros l' ts H.
   - cbn [protect_entries] in H. apply Ok_inj_e in H. injection H as <- <-. reflexivity.
-  - cbn [forallb] in Hn. apply andb_true_iff in Hn. destruct Hn as [Hn1 Hn2].
-    cbn [protect_entries] in H.
+  - cbn [protect_entries] in H.
     destruct (protect_entry se iv sch kid ps_ok) as [[se' t1]| | |] eqn:Ep; try discriminate. cbn [rbind fst snd] in H.
     destruct (protect_entries t iv sch kid ps_ok) as [[t' ts']| | |] eqn:Eq; try discriminate. cbn [rbind fst snd] in H.
     apply Ok_inj_e in H. injection H as <- <-.
     destruct (protect_entry_shape _ _ _ _ _ _ _ Ep) as [Hty [_ Hs]].
-    cbn [decrypt_entries]. rewrite Hty, (remove_encryption_protect _ _ _ _ _ _ _ Hn1 Ep). cbn [rbind snd fst si_schm si_tenc].
-    rewrite (IH t' ts' Hn2 eq_refl). cbn [rbind map]. f_equal. f_equal.
+    cbn [decrypt_entries]. rewrite Hty, (remove_encryption_protect _ _ _ _ _ _ _ Ep). cbn [rbind snd fst si_schm si_tenc].
+    rewrite (IH t' ts' eq_refl). cbn [rbind map]. f_equal. f_equal.
     destruct t; [rewrite N.eqb_refl; reflexivity|].
     assert (Hz : sch =? 0 = false).
     { unfold sch_ok in Hs. apply orb_true_iff in Hs. destruct Hs as [Hs|Hs]; apply N.eqb_eq in Hs; subst sch; reflexivity. }
@@ -70,20 +67,18 @@ Definition entries_no_sinf (m : list mvchild) : bool :=
 
 (* every trak *)
 Lemma decrypt_traks_protect iv sch kid ps_ok : forall m m' ts,
-  entries_no_sinf m = true ->
   protect_traks m iv sch kid ps_ok = Ok (m', ts) ->
   decrypt_traks m' = Ok (m, infos_of sch ts).
 Proof.
-  induction m as [|c t IH]; intros m' ts Hn H.
+  induction m as [|c t IH]; intros m' ts H.
   - cbn [protect_traks] in H. apply Ok_inj_e in H. injection H as <- <-. reflexivity.
-  - cbn [entries_no_sinf forallb] in Hn. apply andb_true_iff in Hn. destruct Hn as [Hc Ht].
-    destruct c as [s|i|i].
+  - destruct c as [s|i|i].
     + cbn [protect_traks] in H.
       destruct (protect_entries s iv sch kid ps_ok) as [[s' ts1]| | |] eqn:Ep; try discriminate. cbn [rbind fst snd] in H.
       destruct (protect_traks t iv sch kid ps_ok) as [[t' ts2]| | |] eqn:Eq; try discriminate. cbn [rbind fst snd] in H.
       apply Ok_inj_e in H. injection H as <- <-.
-      cbn [decrypt_traks]. rewrite (decrypt_entries_protect iv sch kid ps_ok s s' ts1 Hc Ep). cbn [rbind].
-      rewrite (IH t' ts2 Ht eq_refl). cbn [rbind fst snd infos_of flat_map].
+      cbn [decrypt_traks]. rewrite (decrypt_entries_protect iv sch kid ps_ok s s' ts1 Ep). cbn [rbind].
+      rewrite (IH t' ts2 eq_refl). cbn [rbind fst snd infos_of flat_map].
       destruct s as [|se s0].
       * cbn [protect_entries] in Ep. apply Ok_inj_e in Ep. injection Ep as <- <-. reflexivity.
       * assert (Hs : sch_ok sch = true).
@@ -104,10 +99,10 @@ Proof.
         rewrite Hg. destruct ts1 as [|t1 ts1]; [congruence|]. reflexivity.
     + cbn [protect_traks] in H.
       destruct (protect_traks t iv sch kid ps_ok) as [[t' ts2]| | |] eqn:Eq; try discriminate. cbn [rbind fst snd] in H.
-      apply Ok_inj_e in H. injection H as <- <-. cbn [decrypt_traks]. rewrite (IH t' ts2 Ht eq_refl). reflexivity.
+      apply Ok_inj_e in H. injection H as <- <-. cbn [decrypt_traks]. rewrite (IH t' ts2 eq_refl). reflexivity.
     + cbn [protect_traks] in H.
       destruct (protect_traks t iv sch kid ps_ok) as [[t' ts2]| | |] eqn:Eq; try discriminate. cbn [rbind fst snd] in H.
-      apply Ok_inj_e in H. injection H as <- <-. cbn [decrypt_traks]. rewrite (IH t' ts2 Ht eq_refl). reflexivity.
+      apply Ok_inj_e in H. injection H as <- <-. cbn [decrypt_traks]. rewrite (IH t' ts2 eq_refl). reflexivity.
 Qed.
 
 Lemma filter_psshs m ps :
@@ -141,11 +136,11 @@ Qed.
 
 (* DecryptInit on a moov in which every entry of every track was protected, pssh boxes appended: everything back *)
 Lemma init_restore_all m iv sch kid ps_ok psshs m' ts :
-  entries_no_sinf m = true -> no_pssh m = true ->
+  no_pssh m = true ->
   protect_traks m iv sch kid ps_ok = Ok (m', ts) ->
   decrypt_init (m' ++ map MVPssh psshs) = Ok (m, infos_of sch ts).
 Proof.
-  intros Hn Hp H. unfold decrypt_init.
-  rewrite (decrypt_traks_app_psshs m' psshs _ (decrypt_traks_protect iv sch kid ps_ok m m' ts Hn H)).
+  intros Hp H. unfold decrypt_init.
+  rewrite (decrypt_traks_app_psshs m' psshs _ (decrypt_traks_protect iv sch kid ps_ok m m' ts H)).
   cbn [rbind fst snd]. rewrite filter_psshs by exact Hp. reflexivity.
 Qed.
